@@ -4,11 +4,14 @@ from fractions import Fraction
 from .. import sched_gen, sched_impl, sched_suite
 
 PROPERTY = "C05"
-LEAN_MODULE = "IsobarV.Props.C05"
+LEAN_MODULE = "IsobarV.Props.C05Interp"
+CHECKER_MODULES = ["IsobarV.Props.C05", "IsobarV.Interp.Restart", "IsobarV.Props.C05Interp"]
 THEOREMS = ["IsobarV.C05." + t for t in (
     "schedTime_unquantized", "schedTime_spec", "schedTime_on_grid", "start_fires_at", "first_fire_tick",
     "update_semantics", "start_semantics", "last_update_wins", "fireActions_queue", "applyStarts_none",
-    "keeps_old_stream_until_due", "applyStarts_last", "callback_runs_ops", "callback_update_time")]
+    "keeps_old_stream_until_due", "applyStarts_last", "callback_runs_ops", "callback_update_time",
+    "interpolating_update_plays_only_the_new_stream")] + ["IsobarV.Interp." + t for t in (
+    "tick_sim", "run_sim", "start_plays_only_the_new_stream", "start_forgets_the_old_interpolation")]
 RULE = ("(a) random histories with quantize/delay on schedule and update (explicit, timeline defaults, device latency), calls "
         "between ticks and from inside action callbacks, several updates before a tick; real Timeline vs Lean model; "
         "(b) direct grid oracle: schedule at call tick n with quantize qz / delay dl and compare the tick of the first note-on "
